@@ -62,7 +62,7 @@ def norm_tree(t, with_junk):
 class C04(Base):
     ID = "C04"
     AREA = "ser"
-    LEMMA_FILES = ["FluentProofs/Serializer.lean", "FluentProofs/SerializerCongr.lean", "FluentProofs/SerializerEntries.lean", "FluentProofs/SerializerFinal.lean", "FluentProofs/SerializerInline.lean", "FluentProofs/SerializerLineSplit.lean", "FluentProofs/SerializerML.lean", "FluentProofs/SerializerML2.lean", "FluentProofs/SerializerParse.lean", "FluentProofs/SerializerPattern.lean", "FluentProofs/SerializerResParse.lean", "FluentProofs/SerializerResource.lean", "FluentProofs/SerializerRoundtrip.lean", "FluentProofs/SerializerSelect.lean", "FluentProofs/SerializerSources.lean", "FluentProofs/SerializerUtf8.lean", "FluentProofs/SerializerExt.lean", "FluentProofs/SerializerExtArgs.lean", "FluentProofs/SerializerExtClass.lean", "FluentProofs/SerializerOutShape1.lean", "FluentProofs/SerializerOutShape2.lean", "FluentProofs/SerializerOutShape3.lean", "FluentProofs/SerializerOutShape4.lean", "FluentProofs/SerializerOutShape5.lean", "FluentProofs/SerializerOutDeep.lean", "FluentProofs/SerializerOutComment.lean", "FluentProofs/SerializerOutValid.lean", "FluentProofs/SerializerOutCr1.lean", "FluentProofs/SerializerOutCr2.lean", "FluentProofs/SerializerOutCr3.lean", "FluentProofs/SerializerOutCr4.lean", "FluentProofs/SerializerOutCr5.lean", "FluentProofs/SerializerOutCrValid.lean", "FluentProofs/ParserLocalSimDefs.lean", "FluentProofs/ParserLocalSimGe.lean", "FluentProofs/ParserLocalSimLeaf.lean", "FluentProofs/ParserLocalSimLeaf2.lean", "FluentProofs/ParserLocalSimExprAux.lean", "FluentProofs/ParserLocalSimExpr.lean", "FluentProofs/ParserLocalSimExpr2.lean", "FluentProofs/ParserLocalSimEntry.lean", "FluentProofs/ParserLocalSimEntry2.lean", "FluentProofs/ParserLocalSimTop.lean", "FluentProofs/SerializerJunkText.lean", "FluentProofs/SerializerJunkSrcEnd.lean", "FluentProofs/SerializerJunkSrcHead.lean", "FluentProofs/SerializerJunkSrc.lean", "FluentProofs/SerializerJunkTransfer.lean", "FluentProofs/ConstTieSyntax.lean"]
+    LEMMA_FILES = ["FluentProofs/Serializer.lean", "FluentProofs/SerializerCongr.lean", "FluentProofs/SerializerEntries.lean", "FluentProofs/SerializerFinal.lean", "FluentProofs/SerializerInline.lean", "FluentProofs/SerializerLineSplit.lean", "FluentProofs/SerializerML.lean", "FluentProofs/SerializerCrLoneLoop.lean", "FluentProofs/SerializerML2.lean", "FluentProofs/SerializerParse.lean", "FluentProofs/SerializerPattern.lean", "FluentProofs/SerializerResParse.lean", "FluentProofs/SerializerResource.lean", "FluentProofs/SerializerRoundtrip.lean", "FluentProofs/SerializerSelect.lean", "FluentProofs/SerializerSources.lean", "FluentProofs/SerializerUtf8.lean", "FluentProofs/SerializerExt.lean", "FluentProofs/SerializerExtArgs.lean", "FluentProofs/SerializerExtClass.lean", "FluentProofs/SerializerOutShape1.lean", "FluentProofs/SerializerOutShape2.lean", "FluentProofs/SerializerOutShape3.lean", "FluentProofs/SerializerOutShape4.lean", "FluentProofs/SerializerOutShape5.lean", "FluentProofs/SerializerOutDeep.lean", "FluentProofs/SerializerOutComment.lean", "FluentProofs/SerializerOutValid.lean", "FluentProofs/SerializerOutCr1.lean", "FluentProofs/SerializerOutCr2.lean", "FluentProofs/SerializerOutCr3.lean", "FluentProofs/SerializerOutCr4.lean", "FluentProofs/SerializerOutCr5.lean", "FluentProofs/SerializerOutCrValid.lean", "FluentProofs/ParserLocalSimDefs.lean", "FluentProofs/ParserLocalSimGe.lean", "FluentProofs/ParserLocalSimLeaf.lean", "FluentProofs/ParserLocalSimLeaf2.lean", "FluentProofs/ParserLocalSimExprAux.lean", "FluentProofs/ParserLocalSimExpr.lean", "FluentProofs/ParserLocalSimExpr2.lean", "FluentProofs/ParserLocalSimEntry.lean", "FluentProofs/ParserLocalSimEntry2.lean", "FluentProofs/ParserLocalSimTop.lean", "FluentProofs/SerializerJunkText.lean", "FluentProofs/SerializerJunkSrcEnd.lean", "FluentProofs/SerializerJunkSrcHead.lean", "FluentProofs/SerializerJunkSrc.lean", "FluentProofs/SerializerJunkTransfer.lean", "FluentProofs/ConstTieSyntax.lean"]
     RULE = ("every source of the C01 generator mix (corpus, grammar-directed with layouts, mutations, token soup, "
             "neighbourhood) x both serializer options, plus targeted families: values whose first text starts with '.', '[' "
             "or '*', uneven indentation, placeable-led lines, CRLF, nested selects, comments at end of input, Junk between "
